@@ -193,30 +193,45 @@ def rec_loop(seed):
             while v <= maxrit:
                 v = grow(v); krit += 1
     calls = []
-    orig = Ellipse.fit_isophote
+    orig, orig_it, orig_non = Ellipse.fit_isophote, Ellipse._iterative, Ellipse._non_iterative
+    gnames, started = {}, []
+
+    def gname(geometry):      # geometries are named by value (centre, eps, PA); 0 is the first one seen: the user's first guess
+        return gnames.setdefault(tuple(repr(float(v)) for v in (geometry.x0, geometry.y0, geometry.eps, geometry.pa)), len(gnames))
+
+    def it_w(self, sma, step_, linear_, geometry, *a, **kw):
+        started.append(gname(geometry))
+        return orig_it(self, sma, step_, linear_, geometry, *a, **kw)
+
+    def non_w(self, sma, step_, linear_, geometry, *a, **kw):
+        started.append(gname(geometry))
+        return orig_non(self, sma, step_, linear_, geometry, *a, **kw)
 
     def wrapped(self, sma, *a, **kw):
         if len(calls) >= 200 or sma > 40 * n:      # (an ellipse 40 frame sizes wide: the growth has run away)
             raise _Budget()
+        if not gnames:
+            gname(self._geometry)
         iso = orig(self, sma, *a, **kw)
         smp = iso.sample
         thin = bool(sma > 0 and getattr(smp, 'total_points', 0) and smp.actual_points < smp.total_points * 0.7)      # fflag default 0.7
-        calls.append({'ph': 'central' if sma == 0.0 else 'fit', 'k': 0 if sma == 0.0 else expo(sma), 'code': int(iso.stop_code), 'niter': int(iso.niter), 'thin': thin})
+        calls.append({'ph': 'central' if sma == 0.0 else 'fit', 'k': 0 if sma == 0.0 else expo(sma), 'code': int(iso.stop_code), 'niter': int(iso.niter), 'thin': thin,
+                      'gs': started[-1] if started else -1, 'ge': gname(smp.geometry)})
         return iso
     rec = {'id': 2 * 10**7 + seed, 'kind': 'loop', 'par': {'HasMax': bool(maxsma), 'KMax': kmax, 'KMin': kmin, 'MinZero': minsma == 0.0, 'Variant': 'repaired', 'HasRit': bool(maxrit), 'KRit': krit},
            'budget_exceeded': False, 'raised': False, 'final': [], 'params': {'law': law, 'mode': 'loop:' + mode, 'eps': int(eps * 100), 'fix': 'none', 'pa': 1},
            'request': {'n': n, 'sma0': sma0, 'step': step, 'linear': linear, 'minsma': minsma, 'maxsma': maxsma or 0.0, 'maxrit': maxrit or 0.0, 'centre': [cx, cy]}}
-    Ellipse.fit_isophote = wrapped
+    Ellipse.fit_isophote, Ellipse._iterative, Ellipse._non_iterative = wrapped, it_w, non_w
     try:
         g = EllipseGeometry(cx + rng.uniform(-0.4, 0.4), cy + rng.uniform(-0.4, 0.4), sma0, min(0.8, eps + rng.uniform(-0.05, 0.05)), pa + rng.uniform(-0.1, 0.1))
         iso = Ellipse(img, g).fit_image(sma0=sma0, minsma=minsma, maxsma=maxsma, step=step, linear=linear, integrmode=mode, maxrit=maxrit)
-        rec['final'] = [[-1000 if i.sma == 0.0 else expo(i.sma), int(i.stop_code)] for i in iso]
+        rec['final'] = [[-1000 if i.sma == 0.0 else expo(i.sma), int(i.stop_code), 0 if i.sma == 0.0 else gname(i.sample.geometry)] for i in iso]
     except _Budget:
         rec['budget_exceeded'] = True
     except Exception as e:  # noqa
         rec['raised'] = True; rec['exc'] = repr(e)
     finally:
-        Ellipse.fit_isophote = orig
+        Ellipse.fit_isophote, Ellipse._iterative, Ellipse._non_iterative = orig, orig_it, orig_non
     rec['calls'] = calls
     return rec
 
@@ -397,9 +412,16 @@ def run(ctx):
         else:
             r2['final'][1][0] += 7
         lbad.append(r2)
+    for kk, r in enumerate(lgood[:2]):      # geometry flow: a fit that starts from another geometry / a returned isophote that carries another one
+        r2 = core.jcopy(r); r2['id'] = 10**9 + 200 + kk
+        if kk % 2:
+            r2['calls'][2]['gs'] += 50
+        else:
+            r2['final'][1][2] += 50
+        lbad.append(r2)
     if lbad:
         vb = core.validate_batch(ctx, 'Trace_IsoGrowth', lbad, 'SelfTest:IsoGrowth', shards=1)
-        ctx.selftest('dropped call / altered returned exponent in accepted fit_image traces', all(not v['ok'] for v in vb.values()))
+        ctx.selftest('dropped call / altered returned exponent / altered start or returned geometry in accepted fit_image traces', all(not v['ok'] for v in vb.values()))
     g = ctx.tlc('IsoParams', 'GEN_IsoParams.cfg', part='GEN:IsoParams', workers=1)
     lat = [r for r in g.records if r.get('_tag') == 'GEN']
     rng = random.Random(ctx.seed)
